@@ -515,6 +515,10 @@ def _hyp_worker(conn, strategy_fn, eval_fn, n_examples, seed, wid, max_shrinks):
         pass
 
     def body(case):
+        if state["fail"] is not None and state["fail"].get("hang"):
+            # a confirmed hang costs minutes per evaluation: do not let the library shrink it (every further candidate
+            # "passes" at once, so the search ends with the case that was found)
+            return
         r = eval_fn(case, st)
         if r is not None:
             state["fail"] = r
@@ -594,11 +598,16 @@ def conclude(pid, fails, replay_fn, keys_fn=None, confirm_runs=3, need=1):
     lines.  Returns Outcome."""
     oc = Outcome()
     seen = set()
+    hangs = 0
     for f in fails[:8]:
         key = fp(json.dumps(f, sort_keys=True, default=_json_default))
         if key in seen:
             continue
         seen.add(key)
+        if f.get("hang"):
+            hangs += 1
+            if hangs > 2:
+                continue        # each confirmation of a hang costs several timeouts; two are enough
         path = save_replay(pid, f)
         hits = 0
         last = None
